@@ -80,6 +80,34 @@ def run(spec, out):
             except Exception as e:
                 count(f"objects_unpickled_before_their_declaration/raised/{type(e).__name__}")
 
+    # stored data written under OTHER declarations (an older schema, another plugin: the same names and symbols stand for
+    # other prefixes and units there).  Whenever it is read - before the unit modules are imported, after, or in the middle
+    # of the history - the names and symbols declared here go on resolving to what was declared here
+    other_schema = spec.get("other_schema") or None
+    other_objects = []
+
+    def name_bindings():
+        return {f"{cls.__name__}.{reg}[{k!r}]": v for cls in (Unit, Prefix, Dimension) for reg in ("_by_name", "_by_symbol")
+                for k, v in list(getattr(cls, reg, {}).items())}
+
+    def load_other_schema(tag):
+        import base64
+        import pickle
+        before = name_bindings()
+        for kind, name, blob in other_schema["blobs"]:
+            try:
+                other_objects.append(pickle.loads(base64.b64decode(blob)))
+                count(f"other_schema_objects_loaded/{tag}/{kind}")
+            except Exception as e:
+                count(f"other_schema_objects_loaded/{tag}/refused_{type(e).__name__}")
+        after = name_bindings()
+        for k, v in before.items():
+            if after.get(k) is not v:
+                violation("C19:loading-stored-data-rebinds-a-declared-name", f"{tag}: {k} was {v!r} before stored data from a program with other declarations was "
+                          f"unpickled, and is {after.get(k)!r} afterwards")
+
+    if other_schema and other_schema["when"] == "before-import":
+        load_other_schema("before-import")
     if load_after == 0:
         load_foreign()
 
@@ -111,6 +139,8 @@ def run(spec, out):
         out["fatal"] = f"import errors: {b.errors[:3]}"
         return
     One, IdentityPrefix = measured.One, measured.IdentityPrefix
+    if other_schema and other_schema["when"] == "after-import":
+        load_other_schema("after-import")
 
     # ---- registry snapshot -----------------------------------------------------------------------
     def snapshot():
@@ -180,6 +210,25 @@ def run(spec, out):
 
     # ---- 1b. what was unpickled before its declaration ran is, after the declaration, the declared object --------
     stale_base_units = set()
+    other_ids = set()
+
+    def note_other_schema_objects():
+        """what the other program's data reports about itself is its own business (it is not what was declared here): the
+        sweeps judge the objects of this program, and the bindings of its names"""
+        for o in other_objects:
+            u = getattr(o, "unit", o)
+            for x in [u, getattr(u, "prefix", None)] + list(getattr(u, "factors", {})):
+                if x is not None:
+                    other_ids.add(id(x))
+        declared = {id(v) for cls in (Unit, Prefix) for reg in ("_by_name", "_by_symbol") for v in getattr(cls, reg).values()}
+        other_ids.difference_update(declared)     # an object the names of this program are bound to is judged like any other
+        changed = True
+        while changed:
+            changed = False
+            for u in list(Unit._known.values()):
+                if id(u) not in other_ids and id(u) not in declared and (any(id(f) in other_ids for f in getattr(u, "factors", {})) or id(getattr(u, "prefix", None)) in other_ids):
+                    other_ids.add(id(u))
+                    changed = True
 
     def twins(u):
         """base units inside u that are not the registered unit of their name: the pickle brought its own copies"""
@@ -232,9 +281,13 @@ def run(spec, out):
     def sweep(tag):
         count("sweeps")
         seen_n, seen_s = {}, {}
+        note_other_schema_objects()
         for u in list(Unit._known.values()):
             if id(u) in stale_base_units:
                 continue   # reported once, under its own key
+            if id(u) in other_ids:
+                count("sweep_skipped_other_schema_objects")
+                continue
             if not getattr(u, "_initialized", False):
                 violation("C19:half-built-unit-in-table", f"{tag}: an uninitialised Unit sits in Unit._known")
                 continue
@@ -270,6 +323,8 @@ def run(spec, out):
         for p in list(Prefix._known.values()):
             if not getattr(p, "_initialized", False):
                 violation("C19:half-built-prefix-in-table", f"{tag}: an uninitialised Prefix sits in Prefix._known")
+                continue
+            if id(p) in other_ids:
                 continue
             if p.name:
                 if p.name in pn and pn[p.name] is not p:
@@ -417,6 +472,8 @@ def run(spec, out):
     rng.shuffle(lookalikes)
     steps = spec.get("steps", 60)
     for step in range(steps):
+        if other_schema and other_schema["when"] == "mid-history" and step == steps // 3:
+            load_other_schema("mid-history")
         r = rng.random()
         d = rng.choice(dims)
         if r < 0.12:
